@@ -15,6 +15,7 @@ import (
 	"time"
 
 	"github.com/foxboron/go-uefi/authenticode"
+	"github.com/foxboron/go-uefi/efi"
 	"github.com/foxboron/go-uefi/efi/attributes"
 	efifs "github.com/foxboron/go-uefi/efi/fs"
 	"github.com/foxboron/go-uefi/efi/signature"
@@ -188,6 +189,14 @@ func c15FsPlan(rec *recfs.Fs, plan *faultPlan) {
 			}
 			plan.hit()
 			return "eof"
+		case kd == "enoent" || kd == "notexist":
+			// "does not exist" from an operation on an open file: a failure like any other. (From open
+			// itself it is the legitimate answer "no such variable" and not a fault: not injected there.)
+			if !strings.HasPrefix(op, "f.") {
+				return ""
+			}
+			plan.hit()
+			return kd
 		case kd == "eagain" || kd == "eintr": // errnos the operating system classes as temporary / interrupted
 			plan.hit()
 			return kd
@@ -569,7 +578,7 @@ func c15Ops() []c15Op {
 	}})
 	// filesystem: reads
 	// variable readers know how long the file is (Stat): a read that ends early is a failure for them
-	fsReadKinds := append(append([]string{}, fsKinds...), "eof")
+	fsReadKinds := append(append([]string{}, fsKinds...), "eof", "enoent", "notexist")
 	fsRead := func(name string, f func(rec *recfs.Fs) (string, error)) c15Op {
 		kinds := fsReadKinds
 		if name == "FSWrapper.ReadFile" {
@@ -578,9 +587,11 @@ func c15Ops() []c15Op {
 		return c15Op{name, kinds, func(plan *faultPlan) c15Result {
 			rec := recfs.New()
 			_, enc := c15DB()
-			fh, _ := rec.Inner.Create(path.Join("/sys/firmware/efi/efivars", "db-"+refFormat(*efivar.Db.GUID)))
-			fh.Write(append([]byte{0x27, 0, 0, 0}, enc...))
-			fh.Close()
+			for _, v := range []efivar.Efivar{efivar.Db, efivar.Dbx, efivar.PK, efivar.KEK} {
+				fh, _ := rec.Inner.Create(path.Join("/sys/firmware/efi/efivars", v.Name+"-"+refFormat(*v.GUID)))
+				fh.Write(append([]byte{0x27, 0, 0, 0}, enc...))
+				fh.Close()
+			}
 			c15FsPlan(rec, plan)
 			v, err := f(rec)
 			return c15Result{err: err, value: v}
@@ -646,6 +657,21 @@ func c15Ops() []c15Op {
 		}
 		return fmt.Sprintf("attrs %#x value %s", uint32(at), hx8(buf.Bytes())), nil
 	}))
+	// the package-level typed accessors (the twins of Efivarfs.GetPK/.../Getdbx)
+	for _, acc := range []struct {
+		name string
+		f    func() (*signature.SignatureDatabase, error)
+	}{{"efi.Getdb (legacy typed accessor)", efi.Getdb}, {"efi.Getdbx (legacy typed accessor)", efi.Getdbx}, {"efi.GetPK (legacy typed accessor)", efi.GetPK}, {"efi.GetKEK (legacy typed accessor)", efi.GetKEK}} {
+		acc := acc
+		ops = append(ops, fsRead(acc.name, func(rec *recfs.Fs) (string, error) {
+			efifs.SetFS(rec)
+			db, err := acc.f()
+			if err != nil {
+				return "", err
+			}
+			return "database " + hx8(db.Bytes()), nil
+		}))
+	}
 	return ops
 }
 
